@@ -359,6 +359,44 @@ pub fn mutations(j: &Value, w: &World, adv: &World, msg: &[u8], rng: &mut ChaCha
                 push("sigma_pair_compensation_within_aggregate", v);
             }
         }
+        // the same with the index lists the NEW bytes win (each altered sigma is invalid alone, the
+        // sum of the two is unchanged; a verifier whose aggregation does not bind every sigma to its
+        // own key and position accepts them): a few points P, every pair of entries up to 3
+        for (a_i, b_i) in [(0usize, 1usize), (1, 0), (0, n - 1)] {
+            if a_i == b_i || b_i >= n {
+                continue;
+            }
+            let sa = refagg::bytes_of(&j["signatures"][a_i][0]["sigma"]);
+            let sb = refagg::bytes_of(&j["signatures"][b_i][0]["sigma"]);
+            let stake_a = j["signatures"][a_i][1][1].as_u64().unwrap_or(0);
+            let stake_b = j["signatures"][b_i][1][1].as_u64().unwrap_or(0);
+            for g in 0..6u8 {
+                let delta = g1::random_point(&[&rnd::bytes(rng, 8)[..], &[g]].concat());
+                let (Some(a2), Some(nd)) = (g1::add(&sa, &delta), g1::neg(&delta)) else { continue };
+                let Some(b2) = g1::add(&sb, &nd) else { continue };
+                let others: Vec<u64> = (0..n).filter(|t| *t != a_i && *t != b_i).flat_map(|t| idx_list(j, t)).collect();
+                let won = |sig: &[u8; 48], stake: u64| -> Vec<u64> {
+                    (0..m)
+                        .filter(|&i| {
+                            let ev = refagg::draw(&msgp, i, sig);
+                            crate::reflot::won_f64(w.params.phi_f, &ev, stake, w.total_stake) == Some(true)
+                        })
+                        .filter(|i| !others.contains(i))
+                        .collect()
+                };
+                let wa = won(&a2, stake_a);
+                let wb: Vec<u64> = won(&b2, stake_b).into_iter().filter(|i| !wa.contains(i)).collect();
+                if wa.is_empty() || wb.is_empty() {
+                    continue;
+                }
+                let mut v = j.clone();
+                v["signatures"][a_i][0]["sigma"] = to_bytes_json(&a2);
+                v["signatures"][b_i][0]["sigma"] = to_bytes_json(&b2);
+                set_idx(&mut v, a_i, &wa);
+                set_idx(&mut v, b_i, &wb);
+                push("sigma_pair_compensation_within_aggregate_with_the_indices_the_new_bytes_win", v);
+            }
+        }
     }
     // --- batch path edits
     let values: Vec<Value> = j["batch_proof"]["values"].as_array().cloned().unwrap_or_default();
